@@ -54,6 +54,9 @@ checks = {
  "C19": ("exploration", "enum", E1,
          "All fragment counts 1..300 with 100 parity lines each against an independent transcription of the TS004 matrix_line, systematic/linearity checks over fragment sizes 1..64, every erasure pattern of <= 2 lost data fragments for M <= 64 through an independent GF(2) decoder fed with the encoder's output, and the invalid-argument family.",
          "Linearity (checked) reduces arbitrary data to basis vectors."),
+ "C17": ("exploration", "enum", E1,
+         "Frequency (quick: 10 M values on the 100 Hz grid of the LoRa bands plus twenty every-Hz windows; thorough: every Hz value 0..2^32), every Percentage -1000..1000, HEXBytes lengths 0..40, ISO8601Time every second of four days x three zones, each of the 20 payload structs with every subset (up to 2^10) of its optional fields x 3 value variants through json.Marshal/Unmarshal compared field by field, and key envelopes over KEK sizes/keys/labels with every single-bit flip of the wrapped blob, wrong KEK and wrong lengths against an independent RFC 3394.",
+         "encoding/json, strconv and crypto/aes trusted; RFC 3394 re-implemented and self-tested."),
 }
 
 def load_extra():
